@@ -204,6 +204,7 @@ _CMP_UFUNCS = {np.equal, np.not_equal, np.less, np.less_equal, np.greater, np.gr
                np.logical_and, np.logical_or, np.logical_xor, np.logical_not}
 
 HANDLED = {}
+MATMUL_HOOK = [None]     # harness hook: may replace a matrix product by fresh variables (sound over-approximation for universal claims)
 
 
 def implements(*funcs):
@@ -713,6 +714,8 @@ def array_ufunc(ufunc, method, inputs, out, kwargs):
             return _apply_shadow(r, shadow_dtype(ufunc, inputs, {}))
         if ufunc is np.matmul:
             r = _matmul(pin[0], pin[1])
+            if MATMUL_HOOK[0] is not None and isinstance(r, np.ndarray):
+                r = MATMUL_HOOK[0](r)
             return _apply_shadow(r, shadow_dtype(ufunc, inputs, {})) if isinstance(r, np.ndarray) else r
         kw = {k: v for k, v in kwargs.items() if k not in ('dtype', 'casting')}
         dt = kwargs.get('dtype')
